@@ -634,11 +634,15 @@ def canon_strace(path):
             continue
         pid, rest = m.group(1), m.group(2)
         if rest.endswith('<unfinished ...>'):
-            pending[pid] = rest[:-len('<unfinished ...>')]
+            # the call keeps the position of its start: a marker written before an operation must stay before it
+            pending[pid] = (len(lines), rest[:-len('<unfinished ...>')])
+            lines.append('')
             continue
         r = re.match(r'<\.\.\. \w+ resumed>(.*)$', rest)
         if r and pid in pending:
-            rest = pending.pop(pid) + r.group(1)
+            pos, head = pending.pop(pid)
+            lines[pos] = head.rstrip() + r.group(1)
+            continue
         lines.append(rest)
     segs, cur, fds = {}, None, {}
     for l in lines:
@@ -726,7 +730,8 @@ def atomic_engine(pid, spec, tier, seed, workdir, res):
             exp = want[name.split('(')[0]]
             if prog != exp:
                 res['mismatches'].append(dict(case='syscalls-' + name, exchange=0, why='system-call program differs from the model',
-                                              payload=dict(operation=name, encryption=enc, observed=prog, model=exp)))
+                                              payload=dict(operation=name, encryption=enc, observed=prog, model=exp,
+                                                           strace=[l.rstrip()[:300] for l in open(p, errors='replace')][:400])))
 
 
 def encrypt_engine(pid, spec, tier, seed, workdir, res):
